@@ -131,6 +131,15 @@ class Serializer(object):
             return
         try:
             if accept:
+                if self.__useFork and self.__pid > 0:
+                    # A forked child is still writing a dump of this node's older state. It would
+                    # finish later and put that older dump over the newer snapshot stored here.
+                    try:
+                        os.kill(self.__pid, 9)
+                        os.waitpid(self.__pid, 0)
+                    except OSError:
+                        pass
+                    self.__pid = 0
                 atomicReplace(incoming, self.__fileName)
             else:
                 os.remove(incoming)
